@@ -43,7 +43,7 @@ pub const POINTS: [(&str, u8, &str); 25] = [
     ("wait:before_send", 2, "wait"),
     ("clear:after_signal", 2, "clear"),
 ];
-pub const RACERS: [&str; 10] = ["clear", "remove-same", "update-same", "insert-other", "get_mut-write", "tick", "wait", "get-same", "remove-other", "if-present-pending"];
+pub const RACERS: [&str; 12] = ["clear", "remove-same", "update-same", "insert-other", "get_mut-write", "tick", "wait", "get-same", "remove-other", "if-present-pending", "remove-inflight", "insert-inflight"];
 
 struct Rec(Mutex<Vec<OpRec>>);
 impl Rec {
@@ -158,6 +158,7 @@ fn scenario(flavor: Flavor, point: &'static str, role: u8, trig: &'static str, r
     // ---- trigger: the activity that runs into the point (thread A)
     // the key both sides work on; for the cleanup points it is the key the tick finds expired
     let same = if trig == "tick" { 1u64 } else { 2u64 };
+    let inflight = if trig == "insert-new" { 5u64 } else { same };
     // a racing write on the key under cleanup refreshes it: without TTL, or with one that is still running
     let racer_ttl_ns = if trig == "tick" && rng.chance(1, 2) { 10_000_000_000u64 } else { 0 };
     let trigger: Box<dyn FnOnce(Arc<dyn Drv>, Arc<Rec>, Arc<AtomicU64>) + Send> = match trig {
@@ -212,6 +213,12 @@ fn scenario(flavor: Flavor, point: &'static str, role: u8, trig: &'static str, r
                     }
                 }
                 "remove-other" => drop(do_simple(d3.as_ref(), &rec3, 3, OP_REMOVE, 3, &ids3)),
+                // the key whose first insert is in flight (key 5 for the insert-new trigger; otherwise the shared key)
+                "remove-inflight" => drop(do_simple(d3.as_ref(), &rec3, 3, OP_REMOVE, inflight, &ids3)),
+                "insert-inflight" => {
+                    do_insert(d3.as_ref(), &rec3, 3, &ids3, inflight, 1, racer_ttl_ns);
+                    do_get(d3.as_ref(), &rec3, 3, inflight);
+                }
                 "update-same" => {
                     let w = do_insert(d3.as_ref(), &rec3, 3, &ids3, same, 1, racer_ttl_ns);
                     let after = do_get(d3.as_ref(), &rec3, 3, same);
